@@ -357,12 +357,13 @@ def _dt_one(chk, func, clsname, fields, pi, path, out, cur):
     T, val = cur["T"], cur["val"]
     nm = "a-rebuilt-value-copies-every-field-of-the-parsed-value"
     nm2 = "numbers-are-read-as-epoch-seconds-at-UTC"
+    nm3 = "the-result-is-the-parsed-value-or-a-field-wise-rebuild-of-it"
     if out.kind == "unsupported":
-        for n_ in (nm, nm2):
+        for n_ in (nm, nm2, nm3):
             chk.add(Ob(func, n_, pid, hy, z3.BoolVal(False), {"engine": out.value}))
         return
     if out.kind != "ret":
-        for n_ in (nm, nm2):
+        for n_ in (nm, nm2, nm3):
             chk.add(Ob(func, n_, pid, hy, z3.BoolVal(True), {"trivial": True}))
         return
     r = to_val(out.value)
@@ -387,6 +388,11 @@ def _dt_one(chk, func, clsname, fields, pi, path, out, cur):
         chk.add(Ob(func, nm, pid, hy, goal, {"constructor": d}))
     else:
         chk.add(Ob(func, nm, pid, hy, z3.BoolVal(True), {"trivial": True, "constructor": d}))
+    # whitelist of result shapes: the input / parsed value itself, a tz normalisation of it (.replace), or one of the field-wise
+    # rebuilds above; any other way of producing the result (e.g. via a float epoch timestamp of the parsed value) is not exact
+    allowed = (r.num_args() == 0 or d.startswith(("serdes.dateparse", "decode", "method.replace[", "datetime.fromtimestamp", "load"))
+               or d.split("/")[0] in ("construct[" + ",".join(sorted(fields)) + "]", "construct[day,month,tzinfo,year]", "construct[tzinfo]"))
+    chk.add(Ob(func, "the-result-is-the-parsed-value-or-a-field-wise-rebuild-of-it", pid, hy, z3.BoolVal(bool(allowed)), {"result": d}))
     # numeric input: the instant comes from fromtimestamp(val, tz=utc)
     is_num = z3.Or(sub(cls_of(val), cls_const(int)), sub(cls_of(val), cls_const(float)))
     fts = exp_call("datetime.fromtimestamp", [SV(val)], {"tz": UTC})
